@@ -436,6 +436,10 @@ class Poly:
         # rational exponent
         return rpow(self, Fr(e))
 
+    def is_real_coeffs(self):
+        """real coefficients and real-valued atoms only"""
+        return is_real(self)
+
     def inverse(self):
         if not self.t:
             raise ZeroDiv("division by zero")
